@@ -119,6 +119,11 @@ func (fr *Frame) callWith0(st *State, c *ssa.CallCommon, in ssa.Instruction, arg
 		if pureIface(key) {
 			return fr.freshResults(st, sig, "inv."+c.Method.Name())
 		}
+		// the dynamic type is known: the interface value was made from a struct of one named type on every
+		// path that reaches the call (x := T{...}; var i I = x; i.m()): call T.m
+		if callee, recv := fr.devirtualize(fnval, c); callee != nil {
+			return fr.callStatic(st, callee, nil, c, in, append([]*Term{recv}, args...), sig)
+		}
 		if isKeeperIface(recvT) {
 			// expected-keeper interfaces work on the KV store (the ghost world), not on Go memory of the caller
 			ex.note("keeper interface method without contract: store (world) havocked, Go heap kept: %s", key)
@@ -1049,6 +1054,11 @@ func (fr *Frame) loopHeader(st *State, li *loopInfo, phis []*ssa.Phi, entryVals 
 		v := f.Fresh(fmt.Sprintf("%s.%s", fr.fn.Name(), p.Name()), ex.tm.SortOf(p.Type()))
 		ex.typedFacts(st, v, p.Type())
 		fr.env[p] = v
+		// counting loop 'for i := a; i < n; i++': i never drops below its entry value (the same fact the
+		// range form gets for free, so rewriting one form into the other does not lose a proof)
+		if ev := entryVals[p]; ev != nil && countsUp(p, li) {
+			ex.assume(st, f.Ge(v, ev))
+		}
 		// range-over-slice index: Go semantics guarantee -1 <= i < len
 		if p.Comment == "rangeindex" {
 			ex.assume(st, f.Ge(v, f.Int(-1)))
